@@ -100,12 +100,17 @@ def run_config(chk, config):
             e3 = new_engine(chk, fx)
             r3 = e3.analyse(rd["key"], name="%s::try_read" % kind)
             good = False
+            n_okp = 0
+            all_ok = True
             for st, v in r3:
                 vi, payload = result_parts(v)
                 if vi == 0:
+                    n_okp += 1
                     reads = [e for e in st.events() if e[0] == "read"]
                     data = payload.variants[0][0]
-                    good = len(reads) == 1 and reads[0][2] == 4 and isinstance(data, VInt) and data.lin == reads[0][3].lin
+                    if not (len(reads) == 1 and reads[0][2] == 4 and isinstance(data, VInt) and data.lin == reads[0][3].lin):
+                        all_ok = False
+            good = all_ok and n_okp >= 1
             e4 = new_engine(chk, fx)
             r4 = e4.analyse(wr["key"], name="%s::write" % kind)
             good2 = False
